@@ -81,6 +81,8 @@ Definition assign_set (l : val) (r : operand) : ares :=
       | None => if lit then AErr l else AOk (VIp None true)
       end
   | VIp _ _, VIp a ns => AOk (VIp a ns)
+  (* ACL = ACL: the local now designates the other declaration *)
+  | VAcl _ _, VAcl n es => AOk (VAcl n es)
   | _, _ => AErr l
   end.
 
